@@ -51,7 +51,7 @@ func c07Save(r *core.Run, p *core.Program) {
 	}
 	// the writer closure: the one that calls os.Create
 	var wr *ssa.Function
-	for _, f := range sv.AnonFuncs {
+	for _, f := range an.WithClosures(sv)[1:] {
 		if len(an.CallsTo(f, false, "os.Create")) > 0 {
 			wr = f
 		}
@@ -273,7 +273,7 @@ func c07Undo(r *core.Run, p *core.Program) {
 		return
 	}
 	var wr *ssa.Function
-	for _, f := range cb.AnonFuncs {
+	for _, f := range an.WithClosures(cb)[1:] {
 		if len(an.CallsTo(f, false, "os.WriteFile")) > 0 {
 			wr = f
 		}
